@@ -224,6 +224,29 @@ pub fn replace_field(e: &Encoded, ti: usize, field: &[u8], fix: bool) -> Corrupt
     )
 }
 
+/// Replace a whole standard time structure (`72 62 01 6x ..`, TLF index `ti` has role TimeList) by `field`.
+pub fn replace_time_struct(e: &Encoded, ti: usize, field: &[u8], fix: bool) -> Option<Corrupted> {
+    let t = e.map.tlfs[ti];
+    if t.role != Role::TimeList || ti + 2 >= e.map.tlfs.len() {
+        return None;
+    }
+    let v = e.map.tlfs[ti + 2];
+    if e.map.tlfs[ti + 1].role != Role::TimeTag || v.role != Role::TimeVal {
+        return None;
+    }
+    let end = v.off + v.size + v.data_len;
+    let old_len = end - t.off;
+    let mut b = e.bytes.clone();
+    b.splice(t.off..end, field.iter().copied());
+    let mut map = e.map.clone();
+    if field.len() > old_len {
+        map.inserted(end, field.len() - old_len);
+    } else if field.len() < old_len {
+        map.deleted(t.off + field.len(), old_len - field.len());
+    }
+    Some(finish(b, &map, fix, format!("time#{}@{}:={}", ti, t.off, crate::hexu::hex(field)), "field-subst"))
+}
+
 /// a random single corruption of an encoded file
 pub fn random_corruption(e: &Encoded, rng: &mut Rng) -> Corrupted {
     let n = e.bytes.len();
